@@ -26,6 +26,10 @@ class BMSToSM(ConvertBase):
 
         sm.description = unidecode(bms.version.decode("sjis"))
         sm.chart_type = SMMapChartTypes.get_type(bms.stack().column.max() + 1)
+        if not sm.chart_type:
+            raise ValueError(
+                f"Keys {int(bms.stack().column.max() + 1)} isn't supported"
+            )
         sms = SMMapSet()
         sms.maps = [sm]
 
